@@ -508,6 +508,15 @@ func (h *Hashgraph) updateAncestorFirstDescendant(event *Event) error {
 				break
 			}
 
+			// After a Reset, a persistent store may still hand out Events that
+			// were recorded before the Reset and lie below the Roots of the
+			// Frame. They are not part of the hashgraph anymore (an in-memory
+			// store would not find them); writing them back would corrupt the
+			// per-participant index of the store.
+			if h.belowRoot(a) {
+				break
+			}
+
 			_, ok := a.firstDescendants[event.Creator()]
 			if !ok {
 				a.firstDescendants[event.Creator()] = EventCoordinates{
@@ -531,6 +540,16 @@ func (h *Hashgraph) updateAncestorFirstDescendant(event *Event) error {
 		}
 	}
 	return nil
+}
+
+// belowRoot returns true if the Event is older than the oldest Event of its
+// creator's Root.
+func (h *Hashgraph) belowRoot(e *Event) bool {
+	root, err := h.Store.GetRoot(e.Creator())
+	if err != nil || root == nil || len(root.Events) == 0 {
+		return false
+	}
+	return e.Index() < root.Events[0].Core.Index()
 }
 
 func (h *Hashgraph) createFrameEvent(x string) (*FrameEvent, error) {
